@@ -4,6 +4,7 @@ one blank; arbitrary text travels as the hex of its UTF-8 bytes prefixed with `u
 plain hex (`-` for the empty string).
 -/
 import Switcher.Spec.Hex
+import Switcher.Spec.Broadcast
 namespace Wire
 open Spec
 
@@ -27,6 +28,15 @@ def encText (cs : List Char) : String :=
 
 def nat? (s : String) : Option Nat := s.toNat?
 def int? (s : String) : Option Int := s.toInt?
+
+def tenths (n : Nat) : String := s!"{n / 10}.{n % 10}"
+
+def showDev (d : Dev) : String :=
+  let base := s!"{d.cls} {d.dtype} {d.state} {String.ofList d.id} {String.ofList d.key} {String.ofList d.ip} {String.ofList d.mac} {encText d.name}"
+  if d.cls == "SwitcherWaterHeater" then s!"{base} {d.power} {tenths d.ampsTenths} {String.ofList d.remaining} {String.ofList d.autoShutdown}"
+  else if d.cls == "SwitcherPowerPlug" then s!"{base} {d.power} {tenths d.ampsTenths}"
+  else if d.cls == "SwitcherShutter" then s!"{base} {d.position} {d.direction}"
+  else s!"{base} {d.mode} {tenths d.tempTenths} {d.target} {d.fan} {d.swing} {encText d.remote}"
 
 partial def loop (h : IO.FS.Stream) (out : IO.FS.Stream) (f : List String → String) : IO Unit := do
   let line ← h.getLine
